@@ -38,7 +38,11 @@ type refItem struct {
 }
 
 type world struct {
-	qs    []utils.PriorityQueue
+	// callerSlice is the slice handed to the constructor (len = initial items, two spare slots holding sentinels);
+	// the caller keeps it and scribbles over it right after construction - it is the caller's, not the queue's
+	callerSlice []*utils.PriorityQueueItem
+	sentinels   [2]*utils.PriorityQueueItem
+	qs          []utils.PriorityQueue
 	isMin []bool
 	refs  [][]refItem
 	tag   int
@@ -52,7 +56,7 @@ type root struct {
 
 func newWorld(r root) *world {
 	w := &world{}
-	var items []*utils.PriorityQueueItem
+	items := make([]*utils.PriorityQueueItem, 0, len(r.Init)+2)
 	var ref []refItem
 	for _, p := range r.Init {
 		w.tag++
@@ -66,7 +70,33 @@ func newWorld(r root) *world {
 	}
 	w.isMin = append(w.isMin, r.Min)
 	w.refs = append(w.refs, ref)
+	// the caller goes on using its slice: the spare slots get sentinels, the handed-over part is overwritten
+	w.callerSlice = items
+	full := items[:cap(items)]
+	for i := range w.sentinels {
+		w.sentinels[i] = utils.NewPriorityQueueItem(77, -1-i)
+		full[len(items)+i] = w.sentinels[i]
+	}
+	for i := range items {
+		items[i] = utils.NewPriorityQueueItem(99, -10-i)
+	}
 	return w
+}
+
+// callerSliceIntact: the queue must never write into the slice its constructor was given.
+func (w *world) callerSliceIntact() (string, string) {
+	full := w.callerSlice[:cap(w.callerSlice)]
+	for i := range w.sentinels {
+		if full[len(w.callerSlice)+i] != w.sentinels[i] {
+			return "queue-writes-into-constructor-argument", fmt.Sprintf("slot %d past the items handed to the constructor was overwritten by the queue", i)
+		}
+	}
+	for i := range w.callerSlice {
+		if it := w.callerSlice[i]; it == nil || it.Priority() != 99 {
+			return "queue-writes-into-constructor-argument", fmt.Sprintf("element %d of the slice handed to the constructor was overwritten by the queue", i)
+		}
+	}
+	return "", ""
 }
 
 func (w *world) extreme(q int) float32 {
@@ -120,6 +150,9 @@ func (w *world) apply(o op) (key, desc string) {
 // observe checks Len, Peek, contents and heap order of every live queue (Peek is an observation,
 // not an operation: it does not change state).
 func (w *world) observe(after op) (string, string) {
+	if k, d := w.callerSliceIntact(); k != "" {
+		return k, fmt.Sprintf("after %v: %s", after, d)
+	}
 	for q := range w.qs {
 		if w.qs[q].Len() != len(w.refs[q]) {
 			return "len", fmt.Sprintf("after %v: q%d.Len()=%d, reference holds %d", after, q, w.qs[q].Len(), len(w.refs[q]))
